@@ -15,7 +15,8 @@ def run(run):
     run.apalache('AtkRel', [('Init', 'IndInv', 0), ('IndInit', 'IndInv', 1)])
     gsm.mc_slice(run, 'C11', 7 if quick else 8, must=('Compromise', 'Undo', 'RemoveGAttacker', 'AttachAttackers', 'AddGAttacker'))
     gsm.bfs_slice(run, 'C11', 5 if quick else 6, keep=KEEP)
-    gsm.simulate(run, 'C11', 14, 3000 if quick else 50000, keep=KEEP, timeout=300 if quick else 1800)
+    gsm.simulate(run, 'C11', 12, 3000 if quick else 50000, keep=KEEP, free=False, timeout=300 if quick else 1800)
+    gsm.simulate(run, 'C11', 14, 1500 if quick else 30000, keep=KEEP, timeout=300 if quick else 1800)
     gsm.driver_traces(run, 150 if quick else 2500)
     if not quick:
         from checks import c05
